@@ -32,6 +32,14 @@ def structural(ctx, rng, count, all32):
     cases, lines, outs, builts = [], [], [], []
     for k in range(count):
         inst = sm.gen_instance(rng, primal=False)
+        if inst['X'] is None and rng.random() < 0.15:
+            # a change of units in some coordinates: column j of alpha times 2^-43 (about 1e-13; exact in binary), the points of
+            # R^n scaled the other way: the same moment vectors
+            ks = [rng.choice([0, 43]) for _ in range(inst['n'])]
+            if not any(ks):
+                ks[rng.randrange(inst['n'])] = 43
+            inst['alpha'] = [[common.frac_str(F(x) / 2 ** k) for x, k in zip(r, ks)] for r in inst['alpha']]
+            inst['xscale'] = [2 ** k for k in ks]
         setts = list(sm.all_settings()) if all32 else [sm.DEFAULTS] + [sm.rand_settings(rng) for _ in range(3)]
         for s in setts:
             try:
@@ -81,6 +89,8 @@ def moment_audit(ctx, rng, c, line, io, b):
     alpha = np.array([[float(F(x)) for x in r] for r in inst['alpha']], dtype=float)
     m, n = alpha.shape
     pts = sm.domain_points(inst['X'], n, rng, 6, lifted=True)
+    if inst.get('xscale'):
+        pts = [[v * sc for v, sc in zip(p, inst['xscale'])] for p in pts]
     vids = [int(i) for i in (b.vvar if inst['v'] is None else b.user).scalar_variable_ids]
     for xt in pts:
         x = np.asarray(xt[:n])
